@@ -426,7 +426,16 @@ def coverage_case(cid="coverage"):
             M("write_row", [P("in", "S8", "row", "unbounded"), P("in", "uint32", "w"), P("in", "uint16", "h"), P("out", "uint8", "ok")]),
             M("mix", [P("in", "buffer", "a"), P("in", "uint32", "x"), P("in", "IPeer", "p"), P("out", "uint64", "y"), P("out", "buffer", "b"), P("out", "IPeer", "q")]),
             M("opt", [P("in", "uint32", "x"), P("out", "uint32", "y")], optional=True),
+            # the method after an optional one that the implementor left out has the very same
+            # counts and sizes (a dispatch that falls through would serve it under the wrong op)
+            M("after_opt", [P("in", "uint32", "x"), P("out", "uint32", "y")]),
             dict(M("opt_impl", [P("in", "uint16", "x"), P("out", "uint64", "y")], optional=True), implemented=True),
+            # implemented optional methods whose results need the skeleton's work AFTER the call:
+            # reported output lengths, output object arrays, objects embedded in output structs
+            dict(M("opt_fill", [P("in", "uint32", "seed"), P("out", "buffer", "data")], optional=True), implemented=True),
+            dict(M("opt_words", [P("in", "uint16", "n"), P("out", "uint32", "words", "unbounded"), P("out", "uint32", "total")], optional=True), implemented=True),
+            dict(M("opt_objs", [P("out", "IPeer", "objs", 2)], optional=True), implemented=True),
+            dict(M("opt_held", [P("out", "H24", "h")], optional=True), implemented=True),
         ]},
         # an unrelated interface whose methods have the names AND positions (op-codes) of ICov's
         # first methods but other signatures (whatever is keyed by name or op must not leak)
